@@ -19,7 +19,7 @@
      - operations confined to different linked worktrees never interfere
        (C11_worktree_isolated, C11_storage_paths_distinct); only refs/notes/ai is shared. *)
 From Coq Require Import List NArith Bool Arith.
-From Verif Require Import Base.Str Gen.GenConc Model.Conc Proofs.ConcProofs.
+From Verif Require Import Base.Str Gen.GenConc Model.Conc Proofs.ConcProofs Model.TornWrite Proofs.TornWriteProofs.
 Import ListNotations.
 Open Scope N_scope.
 
@@ -264,3 +264,31 @@ Example C11_paths_example :
   ai_dir c (c ++ [s_worktrees; [119; 49]]) = c ++ [s_ai; s_worktrees; [119; 49]] /\
   ai_dir c [[120]; [119; 49]] = ai_dir c (c ++ [s_worktrees; [119; 49]]).
 Proof. exact paths_example. Qed.
+
+(* the in-place rewrite at the granularity of its system calls (fs::write = open(O_TRUNC); write at 0),
+   for two writers with ANY contents a, b under ANY schedule keeping program order:
+   unless both truncations precede both writes the file is the last writer's content (the serial result) *)
+Theorem C11_rewrite_serial_unless_overlapped : forall (a b : list N) sch file,
+  tvalid sch = true -> overlapped sch = false ->
+  texec a b sch file = if a_last sch then a else b.
+Proof. exact (@texec_not_overlapped N). Qed.
+Print Assumptions C11_rewrite_serial_unless_overlapped.
+
+(* and when they do, the file is the last writer's content followed by the part of the earlier writer's
+   content that lies beyond it: a torn tail, present exactly when the earlier content is longer *)
+Theorem C11_rewrite_overlapped_torn_tail : forall (a b : list N) sch file,
+  tvalid sch = true -> overlapped sch = true ->
+  texec a b sch file = (if a_last sch then a ++ skipn (length a) b else b ++ skipn (length b) a) /\
+  ((texec a b sch file = if a_last sch then a else b) <->
+   (if a_last sch then (length b <= length a)%nat else (length a <= length b)%nat)).
+Proof.
+  intros a b sch file V O. split.
+  - exact (texec_overlapped a b sch file V O).
+  - exact (texec_overlapped_intact a b sch file V O).
+Qed.
+Print Assumptions C11_rewrite_overlapped_torn_tail.
+
+Example C11_torn_tail_example :
+  tvalid [TruncA; TruncB; WriteA; WriteB] = true /\ overlapped [TruncA; TruncB; WriteA; WriteB] = true /\
+  texec [1; 2; 3; 4; 5]%nat [7; 8; 9]%nat [TruncA; TruncB; WriteA; WriteB] [0; 0]%nat = [7; 8; 9; 4; 5]%nat.
+Proof. exact torn_example. Qed.
